@@ -66,7 +66,13 @@ EOLS = {"lf": ["\n"], "crlf": ["\r\n"], "cr": ["\r"], "mixed": ["\n", "\r\n", "\
 
 def join_lines(lines, eol):
     e = EOLS[eol]
-    return "".join(l + e[i % len(e)] for i, l in enumerate(lines))
+    out = []
+    for i, l in enumerate(lines):
+        x = e[i % len(e)]
+        if x == "\r" and len(e) > 1 and i + 1 < len(lines) and lines[i + 1] == "" and e[(i + 1) % len(e)].startswith("\n"):
+            x = "\n"  # a lone CR before an EMPTY line that ends in LF would read as one CR LF: one line break instead of two
+        out.append(l + x)
+    return "".join(out)
 
 
 # (name, statement, finalize_time?)  finalize-time faults may legitimately carry no line
